@@ -305,16 +305,15 @@ class C12(Prop):
             return f'request {self._resources_dict(r)} (accepted by the job schema) ends in an internal error instead of a placement or a rejection'
         mt = r.get('machine_type')
         really_invalid = False
-        if mt:
+        if mt is not None:
+            # a named machine type must be one of the cloud's (the empty string is not), and excludes cpu / memory / pool label
             really_invalid = (mt not in self.machines[cloud] or r.get('cpu') is not None or r.get('memory') is not None or bool(q['label']))
-        elif mt is None:
+        else:
             really_invalid = not is_pow2_quarter(q['cores'])
         if o == 'reject invalid':
             return None if really_invalid else f'well-formed request {self._resources_dict(r)} rejected as malformed'
         if really_invalid:
             return f'malformed request {self._resources_dict(r)} was not rejected as malformed: {o}'
-        if q['route'] == 'empty-machine-type':
-            return f"machine_type '' answered {o}"
         if o == 'reject unsatisfiable':
             if q['route'] == 'job-private':
                 if c['jpim']['cloud'] == cloud and q['storage'] <= self.max_storage[cloud]:
@@ -489,8 +488,6 @@ class C12(Prop):
 
     def finding_key(self, c, msg):
         r = c['req']
-        if r.get('machine_type') == '' and 'internal error' in msg:
-            return "machine_type=''"
         return json.dumps({'cloud': c['cloud'], 'req': r, 'pools': c['pools'], 'jpim': c['jpim']}, sort_keys=True)
 
     def shrink(self, c, fails):
